@@ -131,3 +131,65 @@ Theorem C05_blocking_order_on_subscription : forall x cap0 fx ls p1 p2 t1,
   1 <= Monitor.count_recv h x p1 /\ Monitor.count_recv h x p2 = 0.
 Proof. exact SubFifo.fifo_at_spawn. Qed.
 Print Assumptions C05_blocking_order_on_subscription.
+
+(** ** Round "proofs 2": ONE composed system (registry x one send protocol per subscription) *)
+From WM Require GoChannel.Compose.
+
+(** the layers are glued by synchronised steps (snapshot / replay = LSpawn in the instance,
+    teardown woken = LTdWake, s.Close() returned = DSubClose, and [GAllAcked p] is enabled only
+    when every Sender of p's snapshot has returned); the registry component of every composed
+    run is a registry run and every instance is a run of the per-subscription model, so all
+    theorems above hold of the composition *)
+Theorem C05_composed_projection_registry : forall ls c,
+  Compose.cg (Compose.crun c ls) = grun (Compose.cg c) (Compose.reg_labels c ls).
+Proof. exact Compose.proj_reg. Qed.
+Print Assumptions C05_composed_projection_registry.
+Theorem C05_composed_projection_subscription : forall x ls c,
+  Compose.ci (Compose.crun c ls) x = srun (Compose.ci c x) (Compose.sub_labels x c ls).
+Proof. exact Compose.proj_sub. Qed.
+Print Assumptions C05_composed_projection_subscription.
+
+(** the contract between the layers is now a theorem: a message is in [acked] only after its
+    Sender has returned in every subscription of its snapshot *)
+Theorem C05_acked_after_senders_returned : forall pers blk fx caps fa cls p x,
+  let c := Compose.crun (Compose.cinit pers blk fx caps fa) cls in
+  In p (acked (Compose.cg c)) -> In x (Compose.csnap c p) ->
+  exists q, Sub.thr (Compose.ci c x) p = Sub.SDone q.
+Proof. exact Compose.acked_after_senders_returned. Qed.
+Print Assumptions C05_acked_after_senders_returned.
+
+(** per-publisher FIFO in blocking mode, over both layers: when a Publish call is about to take
+    the snapshot of p2, every subscription that was in the snapshot of an earlier message p1 of
+    the call has received and Acked a copy of p1 (its Sender returned) and has no Sender and no
+    copy of p2 - unless the Pub/Sub or that subscription is closing *)
+Theorem C05_blocking_fifo_composed : forall pers caps fa cls t k p2 rem,
+  let c := Compose.crun (Compose.cinit pers true true caps fa) cls in
+  Reg.thr (Compose.cg c) t = PSend k (p2 :: rem) ->
+  exists done, pmsgs (Compose.cg c) t = done ++ p2 :: rem /\
+  forall p1 x, In p1 done -> In x (Compose.csnap c p1) ->
+    gclosing (Compose.cg c) = true \/
+    ((exists q, Sub.thr (Compose.ci c x) p1 = Sub.SDone q)
+     /\ (closing (Compose.ci c x) = false ->
+         exists c1, c1 < next (Compose.ci c x) /\ c_thr (copies (Compose.ci c x) c1) = p1
+                    /\ c_st (copies (Compose.ci c x) c1) = Acked
+                    /\ c_recv (copies (Compose.ci c x) c1) = true)
+     /\ Sub.thr (Compose.ci c x) p2 = Sub.SNone
+     /\ (forall c2, c2 < next (Compose.ci c x) -> c_thr (copies (Compose.ci c x) c2) <> p2)).
+Proof. exact Compose.fifo_composed. Qed.
+Print Assumptions C05_blocking_fifo_composed.
+
+(** "Publish does return": progress of the composed system.  In every reachable composed state
+    (any mode) in which no Subscribe / replay / teardown holds or has announced the write lock
+    and something in the registry is busy, some step of the composition itself is enabled: a
+    registry-internal step, the closing of a message's acked channel, a Sender's or teardown's
+    own step in some subscription - or a step of some subscription's CONSUMER (receive / Ack /
+    Nack).  A blocked Publish waits for nothing but the consumers of its subscribers.
+    (Termination - that the steps run out - needs a bound on the consumers' Nacks and a run
+    without further Subscribe / cancel: see GoChannel/ComposeLive.v; hence "_partial".) *)
+From WM Require GoChannel.ComposeLive.
+Theorem C05_blocking_returns_composed_partial : forall pers blk fx caps fa cls,
+  let c := Compose.crun (Compose.cinit pers blk fx caps fa) cls in
+  writer (Compose.cg c) = None -> wpending (Compose.cg c) = [] -> RegLive.busy (Compose.cg c) ->
+  ComposeLive.CProg c.
+Proof. exact ComposeLive.blocking_progress_composed. Qed.
+Print Assumptions C05_blocking_returns_composed_partial.
